@@ -154,7 +154,7 @@ NOT_APPLICABLE = {
 PENDING = {}
 
 # properties whose thorough tier has been run green on this tree (others register the quick command only)
-THOROUGH_OK = {'C15', 'C09', 'C14', 'C12', 'C07', 'C10', 'C02', 'C13', 'C03', 'C01'}  # for these the thorough tier is the same harness set as the quick tier
+THOROUGH_OK = {'C15', 'C09', 'C14', 'C12', 'C07', 'C10', 'C02', 'C13', 'C03', 'C01', 'C16'}  # for these the thorough tier is the same harness set as the quick tier
 
 
 def main():
